@@ -12,3 +12,15 @@ mod stream {
     use super::common::*;
     include!(concat!(env!("MRECORDLOG_VERIF_HARNESS_DIR"), "/stream.rs"));
 }
+
+#[allow(dead_code, unused_imports, unused_variables, unused_mut, clippy::all)]
+mod mem {
+    use super::common::*;
+    include!(concat!(env!("MRECORDLOG_VERIF_HARNESS_DIR"), "/mem.rs"));
+}
+
+#[allow(dead_code, unused_imports, unused_variables, unused_mut, clippy::all)]
+mod fname {
+    use super::common::*;
+    include!(concat!(env!("MRECORDLOG_VERIF_HARNESS_DIR"), "/fname.rs"));
+}
